@@ -58,7 +58,7 @@ CHECKS = {
          "none.", "DESIGN.md §4 C17"),
  "C18": ("type checker for Send+Sync, then loom: exhaustive exploration of all thread interleavings (within a preemption bound) of real engine code on a token-substituted copy",
          "Stage A: 14 public types are Send + Sync (compile-time). Stage B: five harness bodies (concurrent expansion of never-before-queried shared states with a 5-turn history incl. pushes, pulls, passes and 4th steps that append to the shared history; divergent play on a shared tail with different drop orders; hand-over through a mutex; concurrent drops of lists sharing a tail; a shared state whose pass is withheld as a third repetition) are explored by loom over every interleaving within the bound; each thread's result fingerprints must equal the sequential ones; loom also reports leaked/double-freed Arcs and deadlocks. E1/E2 additionally fingerprint every state before and after expansion (never modified after construction). Stage C (auxiliary, sampled schedules, labelled so): the same scenarios with std threads under Miri's data-race detector, for unsynchronised state (Cell/UnsafeCell behind unsafe impl Sync, static mut) that the substitution cannot reach.",
-         "loom sees only primitives reached by the std::sync/std::thread token substitution (site count in evidence); vendor/loom carries mocks of Arc::into_inner, Arc::make_mut, OnceLock and the comparison traits of Arc; preemption bound as listed per body. Stages C (Miri, 3 / 16 seeds) and D (native threads on real cores, 4 / 20 s) sample schedules and are auxiliary: they are what is left when a tree cannot be built under loom.", "DESIGN.md §3.6, §4 C18"),
+         "loom sees only primitives reached by the std::sync/std::thread token substitution (site count in evidence); vendor/loom carries mocks of Arc::into_inner, Arc::make_mut, OnceLock and the comparison traits of Arc; preemption bound as listed per body. Statics that hold or construct a primitive become loom::lazy_static (re-created for every execution: every interleaving is a cold start; bodies B1 / B5 let the threads make the first queries). Stages C (Miri, 3 / 16 seeds) and D (native threads on real cores, 4 / 20 s, incl. 60 / 300 cold-start child processes) sample schedules and are auxiliary: they are what is left when a tree cannot be built under loom.", "DESIGN.md §3.6, §4 C18"),
  "C19": ("explicit-state exploration with every named query under catch_unwind, overflow checks on",
          "On every state of E1/E2/E3 every query named in the statement and take_action of every offered action is executed under catch_unwind in a build with overflow-checks=true; any unwind is a violation.",
          "Queries outside their documented phase are not called.", "DESIGN.md §4 C19"),
